@@ -774,11 +774,11 @@ theorem lexEmitTagLexeme_call (c : Common) (l : LexRegs) (x : Ctx κ) (sim : Sim
 
 /-- the lexer loaded from the scanner's bookmark stands on the `<` of the hinted tag, in the head
 phase with nothing consumed -/
-theorem relex_start {Pend : κ → Bool} {m' : M κ} {bm : Bookmark} (hd : HeadDone env L S Pend inp m' bm)
+theorem relex_start {Pend : κ → Bool} {K : Bool} {m' : M κ} {bm : Bookmark} (hd : HeadDone env L S Pend K inp m' bm)
     (cl : Common) (l : LexRegs) (h1 : cl.state = env.tbl.textState bm.textType) (h2 : cl.nextPos = bm.pos)
     (h3 : l.lexemeStart = bm.pos) (h4 : cl.lastStartTagNameHash = bm.lastStartTagNameHash) :
     ∃ G : RG, RGOk env.tbl L S G ∧ RelexHead env.tbl L G inp cl l [] ∧ G.L0 = bm.lastStartTagNameHash ∧
-      (Pend m'.x.sink = true → headKind G.H = true) ∧
+      (Pend m'.x.sink = true → headKind G.H = K) ∧
       (∀ k, bm.fd = .applyUnhandled (.requestLexeme k) →
         ∃ sim0, feedbackOf env.cfg sim0 (headKey G.H) = .ok (m'.x.sim, .requestLexeme k)) := by
   obtain ⟨H, term, s1', sfin, a1, a2, a3, a4, a5, a6, a7, a8⟩ := hd.ex
